@@ -43,6 +43,7 @@ type Interp struct {
 	cbLocked     bool
 	Excluded     int
 	ExcludedSigs map[string]int
+	done         bool // the worlds were consumed by a final operation; skip the end-of-case checks
 	nestedDone   map[string]int
 	everRel      map[string][]int // relation layouts populated at some point: layout -> targets
 	shrinkAt     int
@@ -197,6 +198,9 @@ func (it *Interp) Apply(op *Op) {
 		it.opRead(op)
 	case "dumpLoad":
 		it.opDumpLoad(op)
+	case "roundtrip":
+		it.opRoundtrip(op)
+		return
 	default:
 		panic("unknown op kind " + op.K)
 	}
